@@ -119,7 +119,9 @@ def _chunk(arg):
         else:
             obs = lu.run_gen_params(inp, ff["blocks"], ff["links"], paths, wd)
             diffs, known = check_missing(inp, exp, obs, ff["links"], True, ff["blocks"])
-            if not diffs and "exception" not in obs and _edges_are_written(ff["links"]) and not exp.get("verkeydiffers"):
+            # a reader of a topology joins atoms by bonds (constraints, virtual sites): the gate is asserted where links make bonds only
+            bonds_only = all(x["kind"] == "bonds" for l in ff["links"] for x in l["inters"])
+            if not diffs and "exception" not in obs and _edges_are_written(ff["links"]) and bonds_only and not exp.get("verkeydiffers"):
                 g = gate(obs["itp"], wd)
                 ngate += 1
                 want = "passed" if exp["connected"] else "raised"
@@ -236,10 +238,10 @@ def run(tier):
     ck.sample({"I->S record": {"residues": recs[0]["input"]["rattr"], "edges": recs[0]["input"]["edges"], "warned": recs[0]["obs"]["missing"]}})
     ck.stage("binding demonstration")
     good = [r for r in recs if r["obs"]["missing"] and not r["obs"]["exception"]]
-    if not good:
+    if not good and not ck.violations:
         raise c.MachineryError("binding demonstration: no record with a missing-link warning")
-    rec = json.loads(json.dumps(good[0]))
-    base_rej, base_skip = c02.validate_records(ck, [rec], "binding_ok", expect_reject=True)
+    rec = json.loads(json.dumps(good[0])) if good else None
+    base_rej, base_skip = c02.validate_records(ck, [rec], "binding_ok", expect_reject=True) if rec else ({0: "-"}, set())
     if not base_rej and not base_skip:
         rec["obs"]["missing"] = rec["obs"]["missing"][1:]
         rej, _ = c02.validate_records(ck, [rec], "binding_corrupt", expect_reject=True)
